@@ -1,6 +1,7 @@
 package ed25519
 
 import (
+	"math/big"
 	"bytes"
 	"crypto"
 	"fmt"
@@ -13,7 +14,7 @@ import (
 func init() { rt.Register("C07", jobC07) }
 
 func jobC07(c *rt.Ctx) {
-	c.Require("pair/same/accept", "pair/different/reject", "ctxlen/ok", "ctxlen/refused", "digestlen/ok", "digestlen/refused", "hash/ok", "hash/refused", "empty-ctx-is-pure")
+	c.Require("pair/same/accept", "pair/different/reject", "ctxlen/ok", "ctxlen/refused", "digestlen/ok", "digestlen/refused", "hash/ok", "hash/refused", "empty-ctx-is-pure", "after-refused")
 	a254 := strings.Repeat("a", 254)
 	a255 := strings.Repeat("a", 255)
 	a255f := strings.Repeat("a", 254) + "`" // last byte one bit flipped ('a' ^ 1)
@@ -122,6 +123,55 @@ func jobC07(c *rt.Ctx) {
 								fmt.Sprintf("signature made under %s, verified under %s (%s): got %v, want %v (%v)", sv, vv, mode, got, exp, pv), d)
 						}
 					}
+				}
+			}
+		}
+	}
+	// separation must survive what an earlier call left behind: after a verification under one pair
+	// that was REFUSED at each early exit of the verifier, a signature made under that pair is still
+	// accepted under it only
+	c.Require("after-refused")
+	refusals := []string{"key-small", "R-small", "key-undecodable", "R-undecodable", "sig63", "S+L"}
+	for si, sv := range pairs {
+		if sv.v == ref.Pure {
+			continue
+		}
+		if !c.Take() {
+			continue
+		}
+		c.Class("after-refused")
+		c.Distinct(fmt.Sprintf("after-refused %d", si), true)
+		msg := msgOf(1, vPh)
+		goodT := modelTriple(60, msg, sv)
+		for _, rk := range refusals {
+			bad := triple{append([]byte{}, goodT.key...), msg, append([]byte{}, goodT.sig...)}
+			switch rk {
+			case "key-small":
+				bad.key = ref.Encodings(ref.Torsion(0))[0]
+				bad.sig = append(append([]byte{}, ptOf(big.NewInt(5), 0).Encode()...), ref.ToLE(big.NewInt(5), 32)...)
+			case "R-small":
+				copy(bad.sig[:32], ref.Encodings(ref.Torsion(4))[0])
+			case "key-undecodable":
+				bad.key = append([]byte{}, firstUndecodable()...)
+			case "R-undecodable":
+				copy(bad.sig[:32], firstUndecodable())
+			case "sig63":
+				bad.sig = bad.sig[:63]
+			case "S+L":
+				S := ref.LE(bad.sig[32:])
+				S.Add(S, ref.L)
+				copy(bad.sig[32:], ref.ToLE(S, 32))
+			}
+			for vi, vv := range pairs {
+				if got, pv := implSingleOpts(bad, sv, false); got || pv != nil {
+					c.Violation("C07 after-refused refusal", fmt.Sprintf("a %s triple under %s was not refused (%v)", rk, sv, pv), nil)
+				}
+				got, pv := implSingleOpts(goodT, vv, false)
+				c.Step(2)
+				if pv != nil || got != (vi == si) {
+					d := hexd(goodT)
+					d["signed_under"], d["verified_under"], d["refused_before"] = sv.String(), vv.String(), rk
+					c.Violation(fmt.Sprintf("C07 after-refused sign=%s verify=%s", sv.v, vv.v), fmt.Sprintf("after a %s refusal under %s: signature made under %s verified under %s: got %v want %v (%v)", rk, sv, sv, vv, got, vi == si, pv), d)
 				}
 			}
 		}
